@@ -174,8 +174,28 @@ func (l *Layout) variant() int {
 	return l.R.Intn(12)
 }
 
+// none of these names occurs in any xml tag of the library (checked against the struct tags and the scanner's switch)
+var lookAlikes = [][2]string{
+	{"bound", `box="-1.5,2,3.25,4" origin="x"`}, {"bound", `box="0,0,1,1"`}, {"nodes", `id="7" lat="1" lon="2"`},
+	{"wayz", `id="7" version="2"`}, {"relations", `id="9" visible="true"`}, {"tagz", `k="a" v="b"`}, {"ndx", `ref="3"`},
+	{"members", `type="node" ref="1" role="r"`}, {"bbox", `minlat="1" minlon="2" maxlat="3" maxlon="4"`},
+	{"osmosis", `version="0.6"`}, {"Bound", `box="1,2,3,4"`}, {"NODES", `id="1"`},
+}
+
 // unknown: an empty element that no schema knows, with an unknown attribute
 func (l *Layout) unknown(b *bytes.Buffer) {
+	if l.R.Intn(2) == 0 {
+		// a name no schema knows that looks like one (legacy / plural / misspelt), with attributes that known
+		// elements carry: still "unknown", still ignored
+		la := lookAlikes[l.R.Intn(len(lookAlikes))]
+		b.WriteString("<" + la[0] + " " + la[1])
+		if l.R.Intn(2) == 0 {
+			b.WriteString("/>")
+		} else {
+			b.WriteString("></" + la[0] + ">")
+		}
+		return
+	}
 	b.WriteString("<" + l.UnkElem)
 	if l.UnkAttr != "" && l.R.Intn(2) == 0 {
 		b.WriteString(" " + l.UnkAttr + "=\"1\"")
